@@ -573,6 +573,11 @@ func (E *Engine) typeByName(s string) types.Type {
 	if t, ok := E.typesByName[s]; ok {
 		return t
 	}
+	if s == "interface{}" {
+		t := types.NewInterfaceType(nil, nil)
+		E.typesByName[s] = t
+		return t
+	}
 	// "*pkg.T" or "pkg.T" for repo packages
 	ptr := strings.HasPrefix(s, "*")
 	n := strings.TrimPrefix(s, "*")
